@@ -930,6 +930,14 @@ class Fn:
         if isinstance(st, ast.Expr) and isinstance(st.value, ast.Call) and (dotted(st.value.func) or "").startswith("logging.") \
                 and self.spec.get("isolating_try"):
             return self.block(rest)
+        if isinstance(st, ast.Expr) and isinstance(st.value, ast.Call) and dotted(st.value.func) in self.spec.get("local_updates", {}) \
+                and len(st.value.args) == 1 and not st.value.keywords:
+            # x.m(E) on a local x through a declared function: x becomes (f x E)
+            name_, fn_, ty_ = self.spec["local_updates"][dotted(st.value.func)]
+            a_, ta_ = self.expr(st.value.args[0])
+            if ta_ != ty_ or name_ not in self.env or self.env[name_][1] != ty_:
+                raise Unsupported("update of %s with a %s" % (name_, ta_))
+            return self.bind(name_, "(%s %s %s)" % (fn_, self.env[name_][0], a_), ty_, rest)
         if isinstance(st, ast.Expr) and isinstance(st.value, ast.Call) and dotted(st.value.func) in self.spec.get("noop_calls", []):
             self.notes.append("%s(...) is declared to have no effect on the modelled state" % dotted(st.value.func))
             return self.block(rest)
@@ -1428,6 +1436,14 @@ SPECS = [
          calls={"type": ("type_of", ["V"], "T"), "VariableParent": ("tt", [], "unit"),
                 "find_children_for_parent": ("(fun (_ _ : unit) => find_children)", ["unit", "unit", "V", "T"], "list N")},
          local_classes={"VariableParent": "its add_child appends the child to the entry of variable_id (Collector.attach, tied by correspondence)"}),
+    # ---- Resource.merge: the other's attributes over a copy of one's own, and the schema rule (C18)
+    dict(group="Merge", name="gen_resource_merge", path="api/resource/__init__.py", cls="Resource", func="merge",
+         params="{A R : Type} (attrs_update : A -> A -> A) (mk : A -> str -> R) (self_attrs other_attrs : A) (self_schema other_schema : str) (self_ : R)",
+         ret="R", args=["self", "other"], noop_calls=["logging.error"],
+         env={"self.schema_url": ("self_schema", "str"), "other.schema_url": ("other_schema", "str"), "self": ("self_", "R")},
+         opaque_exprs={"self.attributes.copy()": ("self_attrs", "A"), "other.attributes": ("other_attrs", "A")},
+         calls={"Resource": ("mk", ["A", "str"], "R")},
+         local_updates={"merged_attributes.update": ("merged_attributes", "attrs_update", "A")}),
     # ---- the bounded attribute store (C18)
     dict(group="Store", name="gen_setitem", path="api/attributes/__init__.py", cls="BoundedAttributes", func="__setitem__",
          params="(cap vlimit : option Z) (immutable : bool) (items : list (str * cval)) (dropped : Z) (key : str) (value : val)",
@@ -1535,6 +1551,7 @@ GROUPS = {           # generated file -> (imports, which properties' theorems ar
     "Table": ("From Deep Require Import Base Match TriggerTable PureSupport.", ["C11"]),
     "Frames": ("From Deep Require Import Base PureSupport.", ["C19", "C02"]),
     "Store": ("From Deep Require Import Base Attrs PureSupport.", ["C18"]),
+    "Merge": ("From Deep Require Import Base PureSupport.", ["C18"]),
     "Service": ("From Deep Require Import Base ConfigSvc PureSupport.", ["C12", "C13"]),
     "Registry": ("From Deep Require Import Base ConfigSvc PureSupport.\nFrom DeepGen Require Import PService.", ["C13"]),
     "Callbacks": ("From Deep Require Import Base PureSupport.", ["C15"]),
